@@ -1,7 +1,7 @@
 (** Dispatch table of the extracted correspondence driver: each model function wrapped
     as [val -> val].  The harness (harness/model.py) reads the ids and names from the
     comments of [dispatch], so this file is the single registry. *)
-From SE Require Import Base Codecs Fat Stream.
+From SE Require Import Base Codecs Fat Stream Transcode.
 From Coq Require Import Floats.PrimFloat Floats.SpecFloat Floats.FloatOps.
 
 (** floats travel as (kind sign mantissa exponent): kind 0 = finite (value = +-m*2^e,
@@ -73,6 +73,12 @@ Definition vout (o : out) : val :=
   | OutFuel => VL [VI 3]
   end.
 
+Definition unsrc (v : val) : src :=
+  match v with
+  | VL [b; VI w; VI c; VI big] => {| sbytes := unVLZ b; swidth := w; schans := c; sbig := negb (big =? 0) |}
+  | _ => {| sbytes := []; swidth := 1; schans := 1; sbig := false |}
+  end.
+
 Definition dispatch (id : Z) (a : val) : val :=
   match id with
   | 101 (* fast_akai_to_ascii_byte *) => vres VI (fast_akai_to_ascii_byte (unVI a))
@@ -104,5 +110,8 @@ Definition dispatch (id : Z) (a : val) : val :=
       VL (map vout (fst (run v (unVLZ (nth_arg a 1)) (init_state v (unVI (nth_arg a 2)))
                             (map unop (unVL (nth_arg a 3))))))
   | 302 (* rev_samples *) => vlistZ (rev_samples (unVI (nth_arg a 0)) (unVLZ (nth_arg a 1)))
+  | 401 (* transcode *) =>
+      vres vlistZ (transcode (unVI (nth_arg a 0)) (map unsrc (unVL (nth_arg a 1)))
+                             (unVI (nth_arg a 2)) (unVI (nth_arg a 3)))
   | _ => vbad
   end.
